@@ -57,6 +57,9 @@ Prims == {[p |-> "rectangle", a |-> <<1, 2>>, b |-> <<5, 4>>], [p |-> "rectangle
           [p |-> "racetrack", c |-> <<0, 0>>, len |-> 6, r |-> 2, ir |-> 0, vertical |-> FALSE],
           [p |-> "racetrack", c |-> <<1, 1>>, len |-> 3, r |-> 3, ir |-> 1, vertical |-> TRUE],
           [p |-> "fillet", side |-> 8, r |-> 2], [p |-> "fillet", side |-> 8, r |-> 3],
+          \* rectangles whose short side forces the radius to be clamped (both orientations), and one that fits
+          [p |-> "fillet", side |-> 10, side2 |-> 1, r |-> 2], [p |-> "fillet", side |-> 1, side2 |-> 10, r |-> 2],
+          [p |-> "fillet", side |-> 8, side2 |-> 3, r |-> 1],
           [p |-> "ellipse", c |-> <<0, 0>>, rx |-> 8, ry |-> 1, irx |-> 0, iry |-> 0, a0 |-> -20, a1 |-> 20],
           [p |-> "ellipse", c |-> <<0, 0>>, rx |-> 8, ry |-> 1, irx |-> 4, iry |-> 1, a0 |-> 0, a1 |-> 30]}
 
